@@ -14,6 +14,7 @@ import re
 
 from vt import core
 from vt.main import decide
+from translate import kinds_tr
 
 BASE = ["ID", "STRING", "BOOL", "INT", "FLOAT", "STRICTFLOAT", "NUMBER", "BASETYPE"]
 BASE_BODY = {"NUMBER": ["alt", [["r", "STRICTFLOAT"], ["r", "INT"]]],
@@ -290,6 +291,9 @@ Definition show_case (g : list rule) (nu : nat) (trees : list tree) : string :=
       sjoin ";" (map (fun x => sjoin "," (map show_nat (inh s x))) (seq 0 nu)) ++ "|" ++
       sjoin ";" (map (fun k => sjoin "" (map (fun r => show_ob (isinstance n (inh s) k (Some r))) (seq 0 nu))
                              ++ show_ob (isinstance n (inh s) k None)) (seq 0 nu)) ++ "|" ++
+      (if forallb (fun x => match types s x, r_body (rule_of g x) with
+                            | KAbstract, Body e => seq_ok (types s) e
+                            | _, _ => true end) (seq 0 n) then "S" else "s") ++ "|" ++
       sjoin "@" (map (fun t => show_value (process (types s) t)) trees)
   end."""
 
@@ -735,10 +739,12 @@ def check_case(chk, c, failures, disagreements):
         back = {v: k for k, v in idx.items()}
         runs_ok = [run for run in o["runs"] if not run["error"]]
         i_vals = "@".join(run["dump"] for run in runs_ok)
-        m_vals = re.sub(r"#(\d+)\(", lambda m: back[int(m.group(1))] + "(", mv.split("|", 4)[4]) if mv.count("|") >= 4 else mv
-        impl_s = "|".join([str(o.get("passes")), i_k, i_inh, i_is, i_vals])
-        model_s = "|".join(mv.split("|", 4)[:4] + [m_vals]) if mv.count("|") >= 4 else mv
-        if mv.count("|") >= 4:
+        m_vals = re.sub(r"#(\d+)\(", lambda m: back[int(m.group(1))] + "(", mv.split("|", 5)[5]) if mv.count("|") >= 5 else mv
+        # the 5th field ties the finding's classifier to the theorem's hypothesis: seq_ok of every abstract body (Coq)
+        # against skippable_first on the grammar source (Python)
+        impl_s = "|".join([str(o.get("passes")), i_k, i_inh, i_is, "s" if skf else "S", i_vals])
+        model_s = "|".join(mv.split("|", 5)[:5] + [m_vals]) if mv.count("|") >= 5 else mv
+        if mv.count("|") >= 5:
             np_ = mv.split("|", 1)[0]
             chk.stat("grammars resolved in %s passes" % (np_ if np_ in ("1", "2", "3") else ">=4"))
         chk.cov["disagreements_checked"] += 1
@@ -808,8 +814,8 @@ def check_case(chk, c, failures, disagreements):
 
 
 def run(chk):
-    chk.prove([])
-    n = 600 if chk.thorough else 160
+    chk.prove([kinds_tr.translate])
+    n = 400 if chk.thorough else 160
     cases = []
     for c in load_corpus():
         cases.append({"g": c["grammar"], "inputs": c["inputs"], "origin": c["origin"]})
@@ -827,7 +833,10 @@ def run(chk):
                        "up to 3 inputs derived from each grammar; observed: _tx_type, _tx_inh_by, textx_isinstance for every (rule, rule) pair, "
                        "the number of passes of the kind fixpoint, type names and canonical dump of every loaded model, the captured parse tree; non-trivial = the grammar has at least "
                        "one abstract rule; distinct by grammar text")
-    chk.assumptions += ["Model/Kinds.v transcribes _determine_rule_types, _textx_isinstance and the abstract/match/common branch of "
+    chk.assumptions += ["translator kinds_tr.py (ast): text of _determine_rule_types, textx_isinstance and the abstract/match branch of "
+                        "process_node compared with the transcription; has_change / resolved_classes / abstract-result test / visited test "
+                        "extracted as facts into Gen/SrcKinds.v, on which the model and the theorems depend",
+                        "Model/Kinds.v transcribes _determine_rule_types, _textx_isinstance and the abstract/match/common branch of "
                         "process_node by hand; validated by the correspondence on every case",
                         "the grammar handed to the model is the parser model after _resolve_rule_refs (aliases resolved by "
                         "props/c03.py: resolve_alias, validated by the correspondence on _tx_inh_by)",
